@@ -193,10 +193,17 @@ inline Number parseNumber(const char* s) {
       s++;
     }
 
+    // the mantissa has at most 20 digits
+    const int mantissa_digits_max = 20;
+
     while (isdigit(*s)) {
       exponent = exponent * 10 + (*s - '0');
-      if (exponent + exponent_offset > traits::exponent_max) {
-        if (negative_exponent)
+      if (negative_exponent) {
+        if (exponent - exponent_offset >
+            traits::exponent_max + mantissa_digits_max)
+          return Number(is_negative ? -0.0f : 0.0f);
+      } else if (exponent + exponent_offset > traits::exponent_max) {
+        if (mantissa == 0)
           return Number(is_negative ? -0.0f : 0.0f);
         else
           return Number(is_negative ? -traits::inf() : traits::inf());
